@@ -239,3 +239,51 @@ def order_programs(rng, n=None):
                 out.append((src, [], '%s_%s_%s' % (ty, storage, tag)))
     if n is not None and len(out) > n: out = rng.sample(out, n)
     return out
+
+
+def frame_pressure_programs(rng, n):
+    """programs whose frame holds live stack arrays *below* later locals, expression temporaries and call frames, and which
+    print every array element and local at the end: any slot overlap (a frame peak computed too small) shows in the output at the
+    stack sizes just above the minimum.  Returns (source, args) pairs; the argument is a small int used in the values."""
+    out = []
+    for k in range(n):
+        lines = []
+        helper = rng.random() < 0.6
+        # write(int) has a deep frame of its own that can dominate the peak: half of the programs print through bytes only
+        bytes_only = k % 2 == 0
+        def show(e, el='int'):
+            if el == 'byte': return '    write(%s);' % e
+            if bytes_only: return '    write((((%s) %% 64 + 64) %% 64 + 48) is byte);' % e
+            return '    write(%s); write(\' \');' % e
+        if helper:
+            lines.append('int mix(int a, int b, int c) {\n    int t = a * 3 + b;\n    int u = t - c * 2;\n    return (t + u) * 1 + c;\n}')
+        lines.append('empty @is_you(int n) {')
+        arrays = []
+        names = []
+        for i in range(rng.randint(1, 3)):
+            el = rng.choice(['int', 'int', 'byte'])
+            ln = rng.randint(2, 6)
+            vals = ', '.join(('(n + %d)' % rng.randint(0, 40)) if el == 'int' else ('(%d is byte)' % rng.randint(33, 120)) for _ in range(ln))
+            a = 'a%d' % i
+            lines.append('    %s[] %s = [%s];' % (el, a, vals))
+            arrays.append((a, el, ln))
+            # locals and temporaries pushed after the array is live
+            for j in range(rng.randint(1, 4)):
+                x = 'x%d_%d' % (i, j)
+                src = rng.choice(['n + %d' % rng.randint(1, 9), '(n + %d) * (n + %d) - (n * %d + (n - %d) * (n + 1))' % tuple(rng.randint(1, 5) for _ in range(4)),
+                                  '%s[%d] + %d' % (a, rng.randrange(ln), rng.randint(0, 5)) if el == 'int' else 'n + %d' % rng.randint(10, 20)])
+                if helper and rng.random() < 0.5:
+                    src = 'mix(%s, n, %d)' % (src, rng.randint(0, 9))
+                lines.append('    int %s = %s;' % (x, src))
+                names.append(x)
+            if rng.random() < 0.5 and not bytes_only:
+                lines.append('    write(n * 1000 + %d); write(\' \');' % rng.randint(0, 999))
+        for a, el, ln in arrays:
+            for i in range(ln):
+                lines.append(show('%s[%d]' % (a, i), el))
+        for x in names:
+            lines.append(show(x))
+        lines.append('    writeln();')
+        lines.append('}')
+        out.append(('\n'.join(lines) + '\n', [str(rng.choice([0, 1, 3, 7, 12]))]))
+    return out
